@@ -42,6 +42,10 @@ type Stress struct {
 	//                     the handler requires TsigStatus() == nil (the read loop must not touch a request still being verified)
 	MaxTCP      int    // Server.MaxTCPQueries
 	SecondStart string // timed mode: "" | activate | listen – a second ActivateAndServe / ListenAndServe once started (must fail at once)
+	// Hijack n > 0: the handler of every n-th request takes its connection over with Hijack() - before
+	// it sleeps or after it has replied, alternating - and closes it itself before it returns. It is a
+	// handler that was started all the same: Shutdown waits for it
+	Hijack int `json:",omitempty"`
 }
 
 func genStress(t *rapid.T) Stress {
@@ -80,6 +84,9 @@ func genStress(t *rapid.T) Stress {
 	for i := 0; i < n; i++ {
 		s.SleepUs = append(s.SleepUs, rapid.SampledFrom([]int{0, 0, 10, 100, 300, 1000}).Draw(t, "sleep"))
 	}
+	if rapid.IntRange(0, 3).Draw(t, "hijackOn") == 0 { // drawn last
+		s.Hijack = rapid.SampledFrom([]int{1, 1, 2, 3}).Draw(t, "hijackEvery")
+	}
 	return s
 }
 
@@ -105,6 +112,7 @@ type stressRun struct {
 	active   atomic.Int32
 	returned atomic.Bool
 	handled  atomic.Int32
+	hijacked atomic.Int32 // handlers that took their connection over
 	late     atomic.Int32 // handlers that started after Shutdown had returned
 	overlap  atomic.Int32 // Shutdown was called while a handler was active (sampled)
 }
@@ -152,6 +160,10 @@ func (r *stressRun) handler(w dns.ResponseWriter, req *dns.Msg) {
 	}
 	r.active.Add(1)
 	n := r.handled.Add(1)
+	hijack := r.s.Hijack > 0 && int(n)%r.s.Hijack == 0
+	if hijack && (int(n)/r.s.Hijack)%2 == 0 {
+		w.Hijack()
+	}
 	if us := r.s.SleepUs[int(n)%len(r.s.SleepUs)]; us > 0 {
 		time.Sleep(time.Duration(us) * time.Microsecond)
 	}
@@ -159,6 +171,11 @@ func (r *stressRun) handler(w dns.ResponseWriter, req *dns.Msg) {
 	m.SetReply(req)
 	m.Answer = []dns.RR{&dns.TXT{Hdr: dns.RR_Header{Name: req.Question[0].Name, Rrtype: dns.TypeTXT, Class: dns.ClassINET}, Txt: []string{"tok-" + req.Question[0].Name}}}
 	w.WriteMsg(m)
+	if hijack {
+		r.hijacked.Add(1)
+		w.Hijack()
+		w.Close() // the connection is the handler's
+	}
 	r.active.Add(-1)
 }
 
@@ -211,6 +228,9 @@ func checkStress(s Stress) error {
 	}
 	if r.tsigOK.Load() > 0 {
 		cl = append(cl, "tsig-verified-by-slow-provider")
+	}
+	if r.hijacked.Load() > 0 {
+		cl = append(cl, "handler-hijacks")
 	}
 	pbt.Note(key, overlapAny || s.Mode == "blind" || s.Restarts > 1, cl...)
 	return nil
